@@ -590,7 +590,7 @@ func (en *Engine) VerifyFunc(fc *FuncContract) (res *FuncResult) {
 		for i, e := range fc.Ensures {
 			parts := SplitConj(e.E)
 			for k, p := range parts {
-				g := fr.evalBool(post, p)
+				g, _ := fr.tryEvalBool(post, p, "postcondition "+clauseName(e, i))
 				name := clauseName(e, i)
 				if len(parts) > 1 {
 					name = fmt.Sprintf("%s.%d", name, k+1)
